@@ -140,6 +140,25 @@ func caseRelay(r *mon.Rec, idx int) {
 				rm.AddOption(o)
 				lv.extra++
 			}
+			if rng.IntN(4) == 0 {
+				// options the library has no type for, as relay agents add them: Relay Agent Echo Request (43, a list of
+				// option codes), subscriber-id (38), relay-id (53), link-layer-ish vendor data -- before or after the others
+				code := []int{43, 43, 38, 53, 47, 66, 200 + rng.IntN(50)}[rng.IntN(7)]
+				data := gen4.Bytes(rng, 2*(1+rng.IntN(3)))
+				if code == 43 {
+					data = nil
+					for _, c := range [][]int{{18}, {37}, {38}, {18, 37}, {53, 38}, {1}}[rng.IntN(6)] {
+						data = append(data, byte(c>>8), byte(c))
+					}
+				}
+				og := &dhcpv6.OptionGeneric{OptionCode: dhcpv6.OptionCode(code), OptionData: data}
+				if rng.IntN(2) == 0 {
+					rm.Options.Options = append(dhcpv6.Options{og}, rm.Options.Options...)
+				} else {
+					rm.AddOption(og)
+				}
+				lv.extra++
+			}
 			levels[k] = lv
 			cur = rm
 		}
